@@ -25,7 +25,7 @@ type Execution struct {
 func NewExecution(query promql.Query, pool *model.VectorPool, opts *query.Options) *Execution {
 	return &Execution{
 		query:          query,
-		vectorSelector: scan.NewVectorSelector(pool, newStorageFromQuery(query), opts, 0, 0, 1),
+		vectorSelector: scan.NewVectorSelector(pool, newStorageFromQuery(query), opts, 0, 0, 1, false),
 	}
 }
 
